@@ -27,6 +27,21 @@ impl Endpoint {
     pub fn new(config: EndpointConfig, socket: std::net::UdpSocket) -> Result<Self> {
         let local_addr = socket.local_addr()?.pipe(RwLock::new);
         let server_config = config.server_config().clone();
+        #[cfg(bmwill_anemo_verif)]
+        if let Some(factory) = crate::verif::socket_factory() {
+            let (socket, runtime) = factory.make(socket)?;
+            let endpoint = quinn::Endpoint::new_with_abstract_socket(
+                config.quinn_endpoint_config(),
+                Some(server_config),
+                socket,
+                runtime,
+            )?;
+            return Ok(Self {
+                inner: endpoint,
+                local_addr,
+                config,
+            });
+        }
         let endpoint = quinn::Endpoint::new(
             config.quinn_endpoint_config(),
             Some(server_config),
